@@ -75,9 +75,9 @@ def run(repo, res):
     roots_sys = ['<P1>']
     roots = roots_src + roots_sys
     it.sys_path = list(roots_sys)
-    # what one root may hold: nothing; a module pkg.py; a package pkg, empty or with a source or a compiled submodule mod
+    # what one root may hold: nothing; a module pkg.py (alone or next to a top-level module mod.py); a package pkg, empty or with a source or a compiled submodule mod
     # (outside the quantifier: namespace packages - a directory pkg without __init__.py -, pkg.py next to pkg/, mod.py next to mod.so)
-    STATES = [(), ('pkg.py',), ('pkg/__init__.py',), ('pkg/__init__.py', 'pkg/mod.py'), ('pkg/__init__.py', 'pkg/mod.so'),
+    STATES = [(), ('pkg.py',), ('pkg.py', 'mod.py'), ('pkg/__init__.py',), ('pkg/__init__.py', 'pkg/mod.py'), ('pkg/__init__.py', 'pkg/mod.so'),
               ('pkg/__init__.py', 'pkg/mod/__init__.py')]
 
     def importlib_finds(name, fs):
@@ -106,14 +106,24 @@ def run(repo, res):
     try:
         for combo in itertools.product(STATES, repeat=len(roots)):
             fs = {'%s/%s' % (r, f) for r, st in zip(roots, combo) for f in st}
-            for name in ('pkg.mod', 'pkg'):
+            # each name asked of a new project, and after the other name was asked of the same project (what one lookup leaves
+            # behind - caches, the table of loaded modules - must not change the answer to the next)
+            for first, name in ((None, 'pkg.mod'), (None, 'pkg'), ('pkg', 'pkg.mod'), ('pkg.mod', 'pkg')):
                 paths += 1
                 it.reset_path([])
                 it.steps = 0
                 it.fs = set(fs)
+                it.mtimes = {f: 1000.0 for f in fs}
                 it.sys_modules = {}
                 p = it.instantiate(proj, [list(roots_src)], {})
                 want = importlib_finds(name, fs)
+                if first is not None:
+                    try:
+                        it.call(it.getattr(p, 'get_module'), [first], {})
+                    except InterpRaise:
+                        pass
+                    if any(k == first or k.startswith(first + '.') for k in it.sys_modules):
+                        continue          # the first lookup imported a compiled module: sys.modules answers from then on
                 try:
                     r = it.call(it.getattr(p, 'get_module'), [name], {})
                     if isinstance(r, Obj) and r.attrs.get('filename') is not None:
@@ -130,11 +140,13 @@ def run(repo, res):
                 else:
                     ok = got == want
                 if not ok:
-                    bad2.append((sorted(fs), name, got, want or 'ImportError'))
+                    bad2.append((sorted(fs), name if first is None else '%s (after get_module(%r) on the same project)' % (name, first),
+                                 got, want or 'ImportError'))
     except Uninterpretable as e:
         raise AnalysisError('get_module is outside the interpretable subset: %s' % e)
     finally:
         it.fs = None
+        it.mtimes = None
     res.obligations += paths - 1
     res.discharged += paths - 1 - (1 if bad2 else 0)
     bad2.sort(key=lambda b: len(b[0]))
@@ -149,9 +161,13 @@ def run(repo, res):
     # ---- R5 relative names (norm_package) on a fixed package tree, incl. call sequences on one project ----
     it2 = Interp(repo, facts)
     it2.module_env(PROJECT)['SUFFIXES'] = ['.py', '.so']
-    it2.fs = {'<R>/top/__init__.py', '<R>/top/sub/__init__.py', '<R>/top/sub/deep/__init__.py'}
+    # two source roots, the name of the first a string prefix of the name of the second (lib / lib2): which root a file lives under
+    # is a question about path components, not about string prefixes
+    it2.fs = {'<R>/top/__init__.py', '<R>/top/sub/__init__.py', '<R>/top/sub/deep/__init__.py',
+              '<R>2/top/__init__.py', '<R>2/top/sub/__init__.py'}
     it2.reset_path([])
-    files = {'<R>/top/sub/deep/m.py': ['top', 'sub', 'deep'], '<R>/top/sub/m.py': ['top', 'sub'], '<R>/top/m.py': ['top']}
+    files = {'<R>/top/sub/deep/m.py': ['top', 'sub', 'deep'], '<R>/top/sub/m.py': ['top', 'sub'], '<R>/top/m.py': ['top'],
+             '<R>2/top/sub/m.py': ['top', 'sub'], '<R>2/top/m.py': ['top']}
 
     def reference(fname, spec):
         # importlib.util.resolve_name(spec, package) with package = the file's package
@@ -171,7 +187,7 @@ def run(repo, res):
         for first in [None] + calls:
             for second in calls:
                 it2.steps = 0
-                p = it2.instantiate(proj, [['<R>']], {})
+                p = it2.instantiate(proj, [['<R>', '<R>2']], {})
                 seq = ([first] if first else []) + [second]
                 got = None
                 for f, sp in seq:
